@@ -1996,19 +1996,134 @@ func runC17(c *ctx) {
 	c17Clients(c, bin)
 }
 
-// c17Clients: the CLIENT side (tei.Client / tei.Player.TEIGetMove, what selfplay drives tournaments through): for every position
-// handed to TEIGetMove the engine process must receive a `position tps` line that declares exactly that position - squares, side
-// to move AND move number - followed by its go line.  One client serves several games; within and across games the same board
-// with the same side to move comes back at later move numbers (shuffles, transpositions), and boards recur on other sizes.
-func c17Clients(c *ctx, bin string) {
-	r := c.r
-	type sess struct {
-		items []string
-		want  []*aboard
+// ---------------------------------------------------------------------------------------------------------------------
+// c17Clients: the CLIENT side (tei.Client / tei.Player.TEIGetMove, what selfplay drives tournaments through), run in tei.test
+// against an engine PROCESS that is either scripted (rules: the n-th `go` / `position` / ... line is answered with given bytes,
+// stdout or stdin closed) or the real Engine.Run.  Every session is
+//   - judged by the oracle: for every position handed to TEIGetMove the engine process must receive a `position tps` line that
+//     declares exactly that position - squares, side to move AND move number (class client-position-line-wrong) - followed by the
+//     go line that carries the deadline and the four clock values in whole milliseconds (client-go-line-wrong); a clean
+//     `bestmove <move>` answer must come back as that move (client-move-wrong);
+//   - a model case: the lines the client wrote and what every call returned (move / error class / panic class / hang) = L1,
+//     compared with the extracted coq/TeiClient.v run against the same engine answers (or against Tei.v + TeiInst.v for the real
+//     engine).
+// One client serves several games; within and across games the same board with the same side to move comes back at later move
+// numbers (shuffles, transpositions), and boards recur on other sizes.
+
+type c17Sess struct {
+	family string
+	items  []string  // as sent to tei.test
+	asked  []*aboard // per P/Q/M item, the position
+	dl     []string  // per P/Q/M item: "-" or the offset in ms
+	tc     []string  // per P/Q/M item: "-" or "w,b,wi,bi"
+	goAns  []string  // per P/Q/M item: the clean move text the engine was told to answer with ("" = no demand)
+	cut    bool      // the engine closed a pipe: nothing is demanded of later answers
+	cutAt  []bool    // per P/Q/M item: cut when it was asked
+}
+
+func (s *c17Sess) ask(kind string, player int, dl, tc string, a *aboard) {
+	tps := c17FormatTPS(a)
+	switch kind {
+	case "P":
+		s.items = append(s.items, "P "+tps)
+		dl, tc = "-", "-"
+	case "Q":
+		s.items = append(s.items, fmt.Sprintf("Q %d %s %s %s", player, dl, tc, tps))
+	case "M":
+		s.items = append(s.items, fmt.Sprintf("M %d %s %s", player, dl, tps))
+		tc = "-"
 	}
-	var ss []sess
+	s.asked = append(s.asked, a)
+	s.dl = append(s.dl, dl)
+	s.tc = append(s.tc, tc)
+	s.goAns = append(s.goAns, "")
+	s.cutAt = append(s.cutAt, s.cut)
+}
+
+func (s *c17Sess) rule(kind string, n int, flags string, out string) {
+	hx := "-"
+	if out != "" {
+		hx = hex.EncodeToString([]byte(out))
+	}
+	if flags != "-" {
+		s.cut = true
+	}
+	// rules go first: the engine process reads them when it starts
+	s.items = append([]string{fmt.Sprintf("E %s %d %s %s", kind, n, flags, hx)}, s.items...)
+}
+
+// the oracle's go line: deadline and clock values in whole milliseconds, zero values left out
+func c17GoLineOracle(movetimeMs string, tc string) (string, bool) {
+	w := []string{"go"}
+	if movetimeMs != "" {
+		w = append(w, "movetime", movetimeMs)
+	}
+	if tc != "-" {
+		v := strings.Split(tc, ",")
+		for i, key := range []string{"wtime", "btime", "winc", "binc"} {
+			d, _ := strconv.ParseInt(v[i], 10, 64)
+			if d == 0 {
+				continue
+			}
+			if d < 1000000 {
+				return "", false // cannot be said in milliseconds: the client must refuse
+			}
+			w = append(w, key, strconv.FormatInt(d/1000000, 10))
+		}
+	}
+	return strings.Join(w, " "), true
+}
+
+var c17Spaces = []string{" ", "  ", "\t", " \t ", "\u00a0", "\u2003", "\u3000", "\v", "\f", "\u0085", "\u1680", "\u2028", "\u202f"}
+var c17BlankLines = []string{"\n", " \n", "\t\r\n", "\r\n", "\u00a0\n", " \u2003 \u3000 \n", "\v\f\n"}
+var c17TcValues = []int64{0, 0, 0, 1, 999, 999999, 1000000, 1000001, 1999999, 2000000, 60000000000, 600000000000, 1 << 40, 1<<62 + 12345,
+	1<<63 - 1, -1, -1000000, -60000000000, -1 << 63}
+
+func c17GenSessions(c *ctx) []*c17Sess {
+	r := c.r
+	var ss []*c17Sess
+	somePos := func(size, plies int) []*aboard {
+		ps, _ := randomGame(r, tak.Config{Size: size}, plies, -1, false)
+		var out []*aboard
+		for _, p := range ps {
+			if over, _ := p.GameOver(); !over {
+				out = append(out, absOf(p))
+			}
+		}
+		return out
+	}
+	moveText := func(a *aboard) (string, string) { // (text on the wire, clean text)
+		ms := c17Candidates(a)
+		m := ms[r.Intn(len(ms))]
+		t := c17FormatMove(m, r.Intn(2))
+		w := t
+		if r.Intn(4) == 0 {
+			w += []string{"!", "?", "'", "*", "!!", "?!", "'!"}[r.Intn(7)]
+		}
+		return w, t
+	}
+	// two sessions that end in a client waiting for ever come first (each costs the watchdog's 4 s, in parallel with the rest):
+	// a scripted engine that does not answer a go, and the real engine asked for a move in a finished game
+	{
+		s := &c17Sess{family: "hang"}
+		s.items = append(s.items, "G 5")
+		ps := somePos(5, 6)
+		s.ask("P", -1, "-", "-", ps[len(ps)-1])
+		s.ask("P", -1, "-", "-", ps[0])
+		s.rule("go", 2, "-", "info depth 1\nbestmov a1\n")
+		ss = append(ss, s)
+		s = &c17Sess{family: "real-finished"}
+		s.items = append(s.items, "E real 1", "G 3")
+		for _, p := range somePos(3, 4) {
+			s.ask("P", -1, "-", "-", p)
+		}
+		fin, _ := c17ParseTPS("1,1,1/x3/2,2,x", "2", "3") // white owns the bottom row
+		s.ask("P", -1, "-", "-", fin)
+		ss = append(ss, s)
+	}
+	// (a) position sessions (default engine): 1-3 games, repeated boards at later move numbers, boards of earlier games
 	for k := 0; k < 12*c.scale; k++ {
-		var s sess
+		s := &c17Sess{family: "positions"}
 		games := 1 + r.Intn(3)
 		var carry []*aboard // positions of earlier games of this client
 		for g := 0; g < games; g++ {
@@ -2047,62 +2162,410 @@ func c17Clients(c *ctx, bin string) {
 				}
 			}
 			for _, a := range asked {
-				s.items = append(s.items, "P "+c17FormatTPS(a))
-				s.want = append(s.want, a)
+				s.ask("P", -1, "-", "-", a)
 			}
 			carry = append(asked, carry...)
 		}
 		ss = append(ss, s)
 	}
+	// (b) engine answers: clean, decorated, blank lines, malformed bestmove lines, early EOF, dead engine, stale output
+	for k := 0; k < 70*c.scale; k++ {
+		s := &c17Sess{family: "answers"}
+		size := 3 + r.Intn(6)
+		s.items = append(s.items, "G "+strconv.Itoa(size))
+		ps := somePos(size, 3+r.Intn(8))
+		if len(ps) > 5 {
+			ps = ps[len(ps)-5:]
+		}
+		kind := "P"
+		if r.Intn(6) == 0 {
+			kind = "M"
+		}
+		for i, a := range ps {
+			s.ask(kind, -1, "-", "-", a)
+			n := i + 1
+			wire, clean := moveText(a)
+			sp := func() string { return c17Spaces[r.Intn(len(c17Spaces))] }
+			v := r.Intn(20)
+			desync := c17Desync(s)
+			if (s.cut || desync) && (v == 13 || v == 14 || v == 15) {
+				v = 0 // once the engine has closed a pipe, or left extra output in it, the client no longer waits for it: a close would race
+			}
+			if s.cut && (v == 16 || v == 17) {
+				v = 1
+			}
+			switch {
+			case v < 5: // clean
+				s.rule("go", n, "-", "bestmove "+wire+"\n")
+				s.goAns[len(s.goAns)-1] = clean
+			case v < 8: // info lines first, odd spacing, CRLF
+				out := ""
+				for j := r.Intn(3); j >= 0; j-- {
+					out += []string{"info depth 3 time 0 nodes 17 score cp 5 pv a1 b2", "info string bestmove is near", "readyok", "bestmoves a1", "Bestmove a1", "id name x"}[r.Intn(6)] + "\n"
+				}
+				out += sp() + "bestmove" + sp() + wire + sp() + []string{"\n", "\r\n"}[r.Intn(2)]
+				s.rule("go", n, "-", out)
+				s.goAns[len(s.goAns)-1] = clean
+			case v < 10: // a blank line before the answer
+				out := ""
+				if r.Intn(2) == 0 {
+					out = "info depth 1\n"
+				}
+				s.rule("go", n, "-", out+c17BlankLines[r.Intn(len(c17BlankLines))]+"bestmove "+wire+"\n")
+			case v < 13: // malformed bestmove lines
+				bad := []string{"bestmove", "bestmove ", "bestmove a1 b2", "bestmove " + wire + " ponder a1", "bestmove zz", "bestmove 9a1", "bestmove a9",
+					"bestmove C", "bestmove 3a1>21", "bestmove a1>3", "bestmove \xff\xfe", "bestmove i1", "bestmove 1", "bestmove a1+0", "bestmove Sa1>", "bestmove (none)"}
+				s.rule("go", n, "-", bad[r.Intn(len(bad))]+"\n")
+			case v < 15: // early EOF: stdout closed with or without a partial line; later calls meet EOF again
+				s.rule("go", n, "c", []string{"", "bestmo", "bestmove a1", "info depth 1\n", "info depth 1\nbestmove"}[r.Intn(5)])
+			case v < 16: // the engine exits: later writes fail
+				s.rule("go", n, "x", []string{"", "bestmove " + wire + "\n", "bestmove"}[r.Intn(3)])
+				if r.Intn(2) == 0 {
+					s.goAns[len(s.goAns)-1] = ""
+				}
+			case v < 17: // output for a command the client does not wait on: met by the next reading loop
+				s.rule("position", n, "-", []string{"info string position set\n", "\n", "bestmove " + wire + "\n", "bestmove\n"}[r.Intn(4)])
+			case v < 18:
+				s.rule("teinewgame", 1, "-", []string{"info string new game\n", " \n", "bestmove a1\nbestmove b1\n"}[r.Intn(3)])
+			default: // default engine: bestmove a1
+				s.goAns[len(s.goAns)-1] = "a1"
+			}
+		}
+		if r.Intn(3) == 0 {
+			s.items = append(s.items, "G "+strconv.Itoa(3+r.Intn(6)))
+			s.ask("P", -1, "-", "-", ps[0])
+		}
+		ss = append(ss, s)
+	}
+	// (c) deadlines and time controls
+	for k := 0; k < 50*c.scale; k++ {
+		s := &c17Sess{family: "clocks"}
+		size := 3 + r.Intn(6)
+		s.items = append(s.items, "G "+strconv.Itoa(size))
+		ps := somePos(size, 2+r.Intn(6))
+		for _, a := range ps {
+			dl := "-"
+			switch r.Intn(4) {
+			case 0:
+				dl = strconv.Itoa(-r.Intn(5000))
+			case 1:
+				dl = strconv.Itoa(3600000 * (1 + r.Intn(200)))
+			}
+			tc := "-"
+			if r.Intn(5) != 0 {
+				var v [4]string
+				for i := range v {
+					x := c17TcValues[r.Intn(len(c17TcValues))]
+					if r.Intn(3) == 0 {
+						x = r.Int63n(1 << uint(1+r.Intn(62)))
+					}
+					if r.Intn(2) == 0 && x > 1000000 {
+						x = x / 1000000 * 1000000 // GUI clocks: whole milliseconds
+					}
+					v[i] = strconv.FormatInt(x, 10)
+				}
+				tc = strings.Join(v[:], ",")
+			}
+			if r.Intn(8) == 0 {
+				s.ask("M", -1, dl, "-", a)
+			} else {
+				s.ask("Q", -1, dl, tc, a)
+			}
+			s.goAns[len(s.goAns)-1] = "a1"
+		}
+		ss = append(ss, s)
+	}
+	// (d) dead players: a player of an earlier game is asked after NewGame
+	for k := 0; k < 12*c.scale; k++ {
+		s := &c17Sess{family: "dead-player"}
+		games := 2 + r.Intn(3)
+		size := 3 + r.Intn(6)
+		ps := somePos(size, 6)
+		for g := 0; g < games; g++ {
+			s.items = append(s.items, "G "+strconv.Itoa(size))
+			s.ask("Q", g, "-", "-", ps[r.Intn(len(ps))])
+			s.goAns[len(s.goAns)-1] = "a1"
+		}
+		kind := "Q"
+		if r.Intn(3) == 0 {
+			kind = "M"
+		}
+		pl := r.Intn(games)
+		if k%4 == 0 {
+			pl = games - 1 // the live one after all
+		}
+		s.ask(kind, pl, "-", "-", ps[0])
+		ss = append(ss, s)
+	}
+	// (e) the handshake: NewClient against engines that answer `tei` oddly
+	for k, out := range []string{"id name x\nid author y\nteiok\n", "  teiok  \r\n", "\nteiok\n", "teiok extra words\n", "TEIOK\nteiok\n", "id\n"} {
+		s := &c17Sess{family: "handshake"}
+		flags := "-"
+		if k == 5 {
+			flags = "c"
+		}
+		s.items = append(s.items, "G 5")
+		s.ask("P", -1, "-", "-", somePos(5, 3)[0])
+		s.rule("tei", 1, flags, out)
+		ss = append(ss, s)
+	}
+	// (f) the real engine (Engine.Run in the process; depth 1, EvaluateWinner): whole short games, the client's answer is played
+	for k := 0; k < 10*c.scale; k++ {
+		s := &c17Sess{family: "real"}
+		s.items = append(s.items, "E real 1")
+		size := 3 + r.Intn(3)
+		s.items = append(s.items, "G "+strconv.Itoa(size))
+		for _, a := range somePos(size, 3+r.Intn(6)) {
+			if r.Intn(3) == 0 {
+				s.ask("Q", -1, "-", "600000000000,600000000000,1000000000,1000000000", a)
+			} else {
+				s.ask("P", -1, "-", "-", a)
+			}
+		}
+		if k%3 == 0 { // a position of another size: the engine refuses it and exits
+			s.ask("P", -1, "-", "-", somePos(size%6+3, 2)[0])
+		}
+		ss = append(ss, s)
+	}
+	return ss
+}
+
+func c17Clients(c *ctx, bin string) {
+	ss := c17GenSessions(c)
 	var reqs []string
 	for i, s := range ss {
 		reqs = append(reqs, fmt.Sprintf("K %d %s", i, hex.EncodeToString([]byte(strings.Join(s.items, "\n")))))
 	}
+	// formatTime on its own (unexported, reached in-package)
+	var ftimes []int64
+	for _, v := range c17TcValues {
+		ftimes = append(ftimes, v)
+	}
+	for i := 0; i < 300*c.scale; i++ {
+		v := c.r.Int63n(1 << uint(1+c.r.Intn(62)))
+		if c.r.Intn(4) == 0 {
+			v = -v
+		}
+		ftimes = append(ftimes, v)
+	}
+	for _, v := range ftimes {
+		reqs = append(reqs, fmt.Sprintf("F %d", v))
+	}
 	resp := c17Drive(bin, "clients-"+c.tier, reqs)
-	for i, rr := range resp {
+	for i, v := range ftimes {
+		got := strings.TrimPrefix(resp[len(ss)+i], "F ")
+		want := "0"
+		if v >= 1000000 {
+			want = strconv.FormatInt(v/1000000, 10)
+		}
+		if got != want {
+			c.printf("ORACLE-FAIL format-time-wrong | F %d | formatTime = %q | %q: whole milliseconds, nothing below zero\n", v, got, want)
+		}
+		c.stat("format_time_cases", 1)
+		c.printf("CASE F %d | %s\n", v, got)
+	}
+	samples := 0
+	for i, s := range ss {
+		rr := resp[i]
 		f := strings.Split(rr, " ")
-		in := "client-session;" + strings.Join(ss[i].items, ";")
-		if len(f) < 4 || f[0] != "K" {
+		in := "client-session;" + strings.Join(s.items, ";")
+		if len(f) < 3 || f[0] != "K" || strings.HasPrefix(f[2], "E:") {
 			c.printf("ORACLE-FAIL client-driver | %s | %s | a K response\n", in, rr)
 			continue
 		}
 		c.stat("client_sessions", 1)
-		if f[2] != "N" {
-			c.printf("ORACLE-FAIL client-error | %s | the client ended with %s | every request answered\n", in, strings.Join(f[2:len(f)-1], " "))
-			continue
-		}
-		raw, _ := hex.DecodeString(f[len(f)-1])
-		var posLines []string
-		lines := strings.Split(strings.TrimRight(string(raw), "\n"), "\n")
-		for li, l := range lines {
-			if strings.HasPrefix(l, "position ") {
-				posLines = append(posLines, l)
-				if li+1 >= len(lines) || !strings.HasPrefix(lines[li+1], "go") {
-					c.printf("ORACLE-FAIL client-protocol | %s | position line not followed by a go line | position, then go\n", in)
+		c.stat("client_family_"+s.family, 1)
+		results := strings.Split(f[2], ";")
+		var recv, trans []string // received lines (text), transcript entries "answer hex:flags"
+		if len(f) > 3 {
+			raw, _ := hex.DecodeString(f[3])
+			for _, l := range strings.Split(strings.TrimRight(string(raw), "\n"), "\n") {
+				w := strings.Fields(l)
+				if len(w) != 3 {
+					continue
 				}
+				t := ""
+				if w[0] != "-" {
+					b, _ := hex.DecodeString(w[0])
+					t = string(b)
+				}
+				recv = append(recv, t)
+				trans = append(trans, w[1]+":"+w[2])
 			}
 		}
-		if len(posLines) != len(ss[i].want) {
-			c.printf("ORACLE-FAIL client-protocol | %s | %d position lines for %d requests | one position line per request\n", in, len(posLines), len(ss[i].want))
+		// walk the results and the received lines together
+		li := 0
+		next := func() (string, bool) {
+			if li < len(recv) {
+				li++
+				return recv[li-1], true
+			}
+			return "", false
+		}
+		if l, ok := next(); !ok || l != "tei" {
+			c.printf("ORACLE-FAIL client-protocol | %s | first line %q | tei\n", in, l)
 			continue
 		}
-		for k, l := range posLines {
-			c.stat("client_position_lines", 1)
-			w := strings.Fields(l)
-			ok := len(w) == 5 && w[1] == "tps"
-			var got *aboard
-			if ok {
-				var cls int
-				got, cls = c17ParseTPS(w[2], w[3], w[4])
-				ok = cls == cOK && got != nil
-			}
-			want := ss[i].want[k]
-			if !ok || c17Enc(got) != c17Enc(want) {
-				c.printf("ORACLE-FAIL client-position-line-wrong | %s | request %d: the engine received %q | a line declaring %s (%s)\n", in, k+1, l, c17FormatTPS(want), c17Enc(want))
+		modelItems := append([]string(nil), s.items...)
+		qi := 0 // index into asked
+		ri := 1 // index into results (0 is N:...)
+		bad := false
+		if results[0] != "N:ok" {
+			c.stat("client_handshake_"+strings.ReplaceAll(results[0], ":", "_"), 1)
+		}
+		for ii, it := range s.items {
+			if results[0] != "N:ok" || bad {
 				break
 			}
+			if it[0] == 'E' {
+				continue
+			}
+			if ri >= len(results) {
+				break // the session ended at a panic or hang
+			}
+			res := results[ri]
+			ri++
+			if it[0] == 'G' {
+				if res == "G:ok" {
+					if l, ok := next(); !ok || l != "teinewgame "+it[2:] {
+						c.printf("ORACLE-FAIL client-protocol | %s | NewGame(%s) wrote %q | teinewgame %s\n", in, it[2:], l, it[2:])
+						bad = true
+					}
+				}
+				continue
+			}
+			want, dl, tc, ans := s.asked[qi], s.dl[qi], s.tc[qi], s.goAns[qi]
+			qi++
+			c.stat("client_calls", 1)
+			if strings.HasPrefix(res, "P:ok:") {
+				c.stat("client_result_ok", 1)
+			} else {
+				c.stat("client_result_"+strings.ReplaceAll(strings.SplitN(res, ":", 2)[1], ":", "_"), 1)
+			}
+			if res == "P:panic:dead" || res == "P:err:sendpos" || res == "P:panic:getmove-sendpos" {
+				continue // nothing reached the engine
+			}
+			// the position line
+			l, ok := next()
+			w := strings.Fields(l)
+			good := ok && len(w) == 5 && w[0] == "position" && w[1] == "tps"
+			var got *aboard
+			if good {
+				var cls int
+				got, cls = c17ParseTPS(w[2], w[3], w[4])
+				good = cls == cOK && got != nil
+			}
+			c.stat("client_position_lines", 1)
+			if !good || c17Enc(got) != c17Enc(want) {
+				c.printf("ORACLE-FAIL client-position-line-wrong | %s | request %d: the engine received %q | a line declaring %s (%s)\n", in, qi, l, c17FormatTPS(want), c17Enc(want))
+				bad = true
+				continue
+			}
+			// the go line
+			mt := ""
+			var goWant string
+			var sayable bool
+			if res == "P:err:short" {
+				if _, sayable = c17GoLineOracle("", tc); sayable {
+					c.printf("ORACLE-FAIL client-go-line-wrong | %s | request %d refused as too short | clocks %s can be said in milliseconds\n", in, qi, tc)
+					bad = true
+				}
+				continue
+			}
+			l, ok = next()
+			if !ok {
+				if s.family == "real" || strings.HasPrefix(s.family, "real") {
+					continue // the engine had exited before it read the go line
+				}
+				c.printf("ORACLE-FAIL client-protocol | %s | request %d: position line not followed by a go line | position, then go\n", in, qi)
+				bad = true
+				continue
+			}
+			w = strings.Fields(l)
+			if dl != "-" {
+				// the deadline: a past one is "movetime 0"; a future one lies within 20 s below the offset (measured by the client)
+				if len(w) >= 3 && w[1] == "movetime" {
+					mt = w[2]
+				}
+				off, _ := strconv.ParseInt(dl, 10, 64)
+				x, err := strconv.ParseInt(mt, 10, 64)
+				if err != nil || (off <= 0 && x != 0) || (off > 0 && (x > off || x < off-20000)) {
+					c.printf("ORACLE-FAIL client-go-line-wrong | %s | request %d: deadline %s ms from now, go line %q | movetime = the time left in ms\n", in, qi, dl, l)
+					bad = true
+					continue
+				}
+				// the model is given the time left as the client measured it
+				ns := x * 1000000
+				if off <= 0 {
+					ns = -3600000000000
+				}
+				g := strings.Split(modelItems[ii], " ")
+				g[2] = "=" + strconv.FormatInt(ns, 10)
+				modelItems[ii] = strings.Join(g, " ")
+			}
+			goWant, sayable = c17GoLineOracle(mt, tc)
+			c.stat("client_go_lines", 1)
+			if !sayable || l != goWant {
+				c.printf("ORACLE-FAIL client-go-line-wrong | %s | request %d: go line %q | %q (clocks %s)\n", in, qi, l, goWant, tc)
+				bad = true
+				continue
+			}
+			// the answer
+			if ans != "" && s.family != "real" && !s.cutAt[qi-1] {
+				m, cls := c17ParseMove(ans)
+				wantRes := fmt.Sprintf("P:ok:%d,%d,%d,%d", m.X, m.Y, m.Type, m.Slides)
+				if cls == cOK && res != wantRes && !c17Desync(s) {
+					c.printf("ORACLE-FAIL client-move-wrong | %s | request %d: the engine answered bestmove %s, the call returned %s | %s\n", in, qi, ans, res, wantRes)
+					bad = true
+				}
+			}
+			if s.family == "real" && strings.HasPrefix(res, "P:ok:") {
+				// the real engine's move must be legal in the position asked (rules oracle)
+				var x, y, t, sl int
+				fmt.Sscanf(res, "P:ok:%d,%d,%d,%d", &x, &y, &t, &sl)
+				if want.rulesMove(tak.Move{X: int8(x), Y: int8(y), Type: tak.MoveType(t), Slides: tak.Slides(sl)}) == nil {
+					c.printf("ORACLE-FAIL client-move-illegal | %s | request %d: TEIGetMove returned %s | a move legal in %s\n", in, qi, res, c17FormatTPS(want))
+					bad = true
+				}
+				c.stat("client_real_moves", 1)
+			}
+			if res == "P:panic:blank" {
+				c.stat("client_blank_line_panics", 1)
+			}
+		}
+		if bad {
+			continue
+		}
+		if strings.HasPrefix(s.family, "real") && strings.HasSuffix(f[2], "P:err:server") && len(recv) > 0 && strings.HasPrefix(recv[len(recv)-1], "go") {
+			// the real engine refused the position line and exited; whether the go line still got into the pipe is a race
+			// (the call fails either way): the model's engine process takes nothing after its exit
+			recv = recv[:len(recv)-1]
+		}
+		tr := "-"
+		if len(trans) > 0 {
+			tr = strings.Join(trans, ",")
+		}
+		var hexRecv []string
+		for _, l := range recv {
+			hexRecv = append(hexRecv, hex.EncodeToString([]byte(l)))
+		}
+		c.printf("CASE K %s %s | %s %s\n", hex.EncodeToString([]byte(strings.Join(modelItems, "\n"))), tr, f[2], strings.Join(hexRecv, ","))
+		if samples < 6 && len(s.items) < 8 && s.family != "positions" {
+			samples++
+			c.printf("SAMPLE client %s: %s -> %s ; engine received %q\n", s.family, strings.Join(s.items, " ; "), f[2], recv)
 		}
 	}
+}
+
+// sessions in which an engine answer can be consumed by a later call (output for position/teinewgame lines, two bestmoves):
+// which call gets which answer is the model's business, the oracle demands nothing about the moves
+func c17Desync(s *c17Sess) bool {
+	for _, it := range s.items {
+		if strings.HasPrefix(it, "E position ") || strings.HasPrefix(it, "E teinewgame ") {
+			return true
+		}
+	}
+	return false
 }
 
 func c17Fixed() []*c17Script {
